@@ -217,6 +217,12 @@ def cmd_schema(repo, out):
         package = fname[:-3]
         txt = open(f"{base}/proto/{fname}").read()
         m, o, e = parse_file(txt, modpath, package)
+        # every derive of a prost trait outside the grpc modules must have been picked up
+        want_m = len(re.findall(r'::prost::Message\b', strip_comments(txt)))
+        want_o = len(re.findall(r'::prost::Oneof\b', strip_comments(txt)))
+        want_e = len(re.findall(r'::prost::Enumeration\b', strip_comments(txt)))
+        if (want_m, want_o, want_e) != (len(m), len(o), len(e)):
+            raise SystemExit(f"gen.py: {fname}: found {len(m)}/{len(o)}/{len(e)} messages/oneofs/enumerations but the file derives {want_m}/{want_o}/{want_e}")
         schema["messages"].update(m)
         schema["oneofs"].update(o)
         schema["enumerations"].update(e)
@@ -224,8 +230,12 @@ def cmd_schema(repo, out):
     # registered type urls
     urls = {}
     t = open(f"{base}/type_urls.rs").read()
-    for m in re.finditer(r'impl TypeUrl for ([\w:#]+)\s*\{\s*const TYPE_URL: &\'static str = "([^"]*)";', t):
+    t = strip_comments(t)
+    for m in re.finditer(r'impl\s+TypeUrl\s+for\s+([\w:#]+)\s*\{[^}]*?const\s+TYPE_URL\s*:\s*&\'static\s+str\s*=\s*"([^"]*)"', t, re.S):
         urls[m.group(1)] = m.group(2)
+    n_impl = len(re.findall(r'impl\s+TypeUrl\s+for', t))
+    if n_impl != len(urls):
+        raise SystemExit(f"gen.py: {n_impl} TypeUrl impls in type_urls.rs but only {len(urls)} parsed")
     schema["type_urls"] = urls
     json.dump(schema, open(out, "w"), indent=0, sort_keys=True)
     print(f"schema: {len(schema['messages'])} messages, {sum(len(v['fields']) for v in schema['messages'].values())} fields, {len(schema['oneofs'])} oneofs, {len(schema['enumerations'])} enumerations, {len(urls)} type urls")
